@@ -510,6 +510,10 @@ func (pi *pathIndex) nilnessAt(v ssa.Value, pos int, errno bool) string {
 			x, isNilLit, ok = l.nilTest()
 		}
 		if !ok {
+			// equal to a sentinel (package-level error value, or a non-zero errno constant): not nil either
+			if sx, isSent := sentinelEq(l.Lit, errno); isSent && pi.resolve(sx, lpos) == rv && res == "unknown" {
+				res = "nonnil"
+			}
 			continue
 		}
 		if pi.resolve(x, lpos) == rv {
@@ -850,3 +854,30 @@ func (r leakReport) String() string {
 }
 
 var _ = fmt.Sprintf
+
+// sentinelEq: the literal says `x == S` where S is a package-level (error) variable - or, for errno values, a non-zero
+// constant: x is then not nil / not zero.
+func sentinelEq(l Lit, errno bool) (ssa.Value, bool) {
+	op, a, b, ok := l.cmp()
+	if !ok || op != token.EQL {
+		return nil, false
+	}
+	isSent := func(v ssa.Value) bool {
+		if errno {
+			k, isK := constInt(v)
+			return isK && k != 0
+		}
+		if u, ok := strip(v).(*ssa.UnOp); ok && u.Op == token.MUL {
+			_, isG := u.X.(*ssa.Global)
+			return isG
+		}
+		return false
+	}
+	switch {
+	case isSent(b):
+		return a, true
+	case isSent(a):
+		return b, true
+	}
+	return nil, false
+}
